@@ -6,10 +6,10 @@
 From Coq Require Import String Ascii.
 From Coq Require Import NArith ZArith List Bool.
 Import ListNotations.
-From PV Require Import Metadata.Address Metadata.Refs Metadata.RefsBytes Metadata.Utf8Name.
+From PV Require Import Metadata.Address Metadata.Bech32Case Metadata.Refs Metadata.RefsBytes Metadata.Utf8Name.
 From PV Require Import Proofs.AddressProofs Proofs.Bech32Proofs Proofs.AddressTextProofs Proofs.RefsProofs.
 From PV Require Import Proofs.RefsExtraProofs Proofs.SpecRefsProofs Proofs.RefsBytesProofs Proofs.Utf8NameProofs.
-From PV Require Import Corr.C14 Proofs.C14CheckerProofs.
+From PV Require Import Corr.C14 Proofs.C14CheckerProofs Proofs.Bech32CaseProofs.
 
 (** ** Addresses *)
 
@@ -167,6 +167,24 @@ Theorem C14_address_text_roundtrip : forall a, maddr_wf a ->
   exists s, to_string (maddr_bytes a) = Some s /\ from_bech32 s = Some (maddr_bytes a).
 Proof. exact address_text_roundtrip. Qed.
 Print Assumptions C14_address_text_roundtrip.
+
+(** Letter case (BIP-173: a bech32 string is spelled all in lower case or all in upper case, mixed
+    case is invalid).  ParseMetadataAddressFromBech32 reads the all-upper-case and the all-lower-case
+    spelling of ANY text that is not mixed case exactly as the text itself, and rejects every
+    mixed-case text; so String() of every well formed address parses back to the same bytes in
+    lower case and in UPPER case, and every spelling of it with some but not all letters in upper
+    case is rejected (the clause [check_acase] evaluates on the implementation's answers). *)
+Theorem C14_bech32_case_insensitive_parse :
+  (forall s, mixed_case s = false ->
+     from_bech32 (upper s) = from_bech32 s /\ from_bech32 (lower s) = from_bech32 s) /\
+  (forall s, mixed_case s = true -> from_bech32 s = None) /\
+  (forall a, maddr_wf a -> Forall (fun b => (b < 256)%N) (maddr_bytes a) ->
+     exists s, to_string (maddr_bytes a) = Some s /\
+       from_bech32 s = Some (maddr_bytes a) /\ from_bech32 (upper s) = Some (maddr_bytes a) /\
+       from_bech32 (lower s) = Some (maddr_bytes a) /\
+       forall m, lower m = lower s -> mixed_case m = true -> from_bech32 m = None).
+Proof. exact (conj from_bech32_case (conj from_bech32_mixed address_text_case)). Qed.
+Print Assumptions C14_bech32_case_insensitive_parse.
 
 (** ** Referential integrity (over ALL histories) *)
 Open Scope Z_scope.
